@@ -32,11 +32,20 @@ func CheckRootSchema(rootSchema *ischema.ISchema) {
 		allowedJsonTypes: make(map[json.Type]struct{}, 10),
 	}
 
-	if rootSchema.RootNode() != nil { // the root schema may contain no nodes
-		c.checkNode(rootSchema.RootNode(), rootSchema.TypesList())
+	types := rootSchema.TypesList()
+
+	// A type without a value (see checkType) cannot be looked into: it is
+	// refused before the nodes that may refer to it are checked.
+	for _, name := range rootSchema.TypeNames() {
+		if types[name].Schema.RootNode() == nil {
+			panic(kit.NewJSchemaError(types[name].RootFile, errs.ErrEmptyType.F(name)))
+		}
 	}
 
-	types := rootSchema.TypesList()
+	if rootSchema.RootNode() != nil { // the root schema may contain no nodes
+		c.checkNode(rootSchema.RootNode(), types)
+	}
+
 	for _, name := range rootSchema.TypeNames() {
 		c.checkType(name, types[name], types)
 	}
